@@ -595,7 +595,8 @@ def normalize_path(path: bytes) -> tuple[bytes, str]:
         if segment == b".":
             pass
         elif segment == b"..":
-            if dotless:
+            # ".." cancels the previous segment but never the root of an absolute path
+            if len(dotless) > (1 if path.startswith(b"/") else 0):
                 dotless.pop()
         else:
             dotless.append(segment)
